@@ -10,6 +10,7 @@ import (
 	"fmt"
 	"os"
 	"path/filepath"
+	"strings"
 	"sync"
 	"testing"
 
@@ -69,5 +70,65 @@ func TestRace(t *testing.T) {
 	ev.Distinct(fmt.Sprint("rounds=", rounds))
 	ev.Rule = fmt.Sprintf("%d rounds x 6 concurrent client scripts x upgrade modes off/local against the plain (un-rewritten) agent with real hooks under the Go race detector; a race report is a violation (sampling pass, not the deciding step)", rounds)
 	ev.Sample(map[string]any{"scripts": "update+auth | auth+auth+list | add+set-admin+remove | sasl callback + ldap bind | api login | update+check"})
+	ev.Finish()
+}
+
+// TestRaceC07: concurrent token issuance and checking on ONE session factory (the HTTP
+// handlers run concurrently on the shared factory).  Under the race detector; in addition
+// every issued token must be accepted with its identity and all nonces must be distinct.
+func TestRaceC07(t *testing.T) {
+	ev := verifev.New("C07", "race")
+	f, err := NewWebSessionFactory(600e9)
+	must(err)
+	workers, per := 8, 2000
+	if ev.Thorough() {
+		per = 20000
+	}
+	type tok struct {
+		text  string
+		user  string
+		admin bool
+	}
+	res := make([][]tok, workers)
+	var wg sync.WaitGroup
+	for w := 0; w < workers; w++ {
+		wg.Add(1)
+		go func(w int) {
+			defer wg.Done()
+			for i := 0; i < per; i++ {
+				u := fmt.Sprintf("user%d", w)
+				st, _, text := f.Generate(u, w%2 == 0)
+				if st != 200 {
+					ev.Violation("concurrent-generate-failed", fmt.Sprintf("Generate returned %d", st), nil)
+					return
+				}
+				res[w] = append(res[w], tok{text, u, w%2 == 0})
+				// checking concurrently as well
+				if st, _, gu, ga := f.Check(text); st != 200 || gu != u || ga != (w%2 == 0) {
+					ev.Violation("concurrently-issued-token-refused", fmt.Sprintf("token just issued for (%s,%v) checks as %d (%s,%v)", u, w%2 == 0, st, gu, ga), nil)
+					return
+				}
+			}
+		}(w)
+	}
+	wg.Wait()
+	nonces := map[string]bool{}
+	for w := range res {
+		for _, tk := range res[w] {
+			n, _, _ := strings.Cut(tk.text, ":")
+			if nonces[n] {
+				ev.Violation("nonce-reused-under-concurrency", "two concurrently issued tokens share the nonce "+n, nil)
+			}
+			nonces[n] = true
+			if st, _, gu, ga := f.Check(tk.text); st != 200 || gu != tk.user || ga != tk.admin {
+				ev.Violation("concurrently-issued-token-refused", fmt.Sprintf("token issued for (%s,%v) checks as %d (%s,%v)", tk.user, tk.admin, st, gu, ga), nil)
+			}
+			ev.Add("evaluations", 1)
+		}
+	}
+	ev.Distinct("workers=8")
+	ev.Distinct(fmt.Sprint("tokens=", len(nonces)))
+	ev.Rule = fmt.Sprintf("%d goroutines x %d Generate+Check calls on one factory under the Go race detector; all nonces distinct, every token accepted with its identity (sampling pass for unsynchronised state in the factory)", workers, per)
+	ev.Sample(map[string]any{"tokens": workers * per})
 	ev.Finish()
 }
